@@ -95,8 +95,8 @@ impl Prop for C17 {
     }
     fn assumptions(&self) -> Vec<String> {
         vec![
-            "UNIX_EPOCH.elapsed() in humphrey-auth reads the virtual wall clock (the only hook used)".into(),
-            "Argon2 and OsRng are real; token values are opaque and never enter a trace".into(),
+            "UNIX_EPOCH.elapsed() in humphrey-auth reads the virtual wall clock".into(),
+            "Argon2 is real; OsRng and Uuid::new_v4 read the run's entropy stream (humsim::rand), so uids, salts and tokens are a function of the seed and every failure replays".into(),
             "single driver thread: the property quantifies over histories, not schedules".into(),
         ]
     }
